@@ -40,3 +40,9 @@ package sessions
 //@ interface CSRFStore.ClearCSRF(rw http.ResponseWriter, req *http.Request)
 //@   modifies rw.$csrfCookie
 //@   ensures rw.$csrfCookie == 2
+
+//@ func UnmarshalSession(value string, c aead.Cipher) (*SessionState, error)
+//@   modifies nothing
+//@   fresh result.0
+//@   ensures [C02] no_data_on_error: result.1 != nil ==> result.0 == nil
+//@   ensures [C02 C08] opened_under_this_cipher: result.1 == nil ==> result.0 != nil && called(@Unmarshal#1) && @Unmarshal#1 == nil && arg(@Unmarshal#1, 0) == c && arg(@Unmarshal#1, 1) == value
